@@ -228,6 +228,18 @@ def _effect_failure_progs():
     return out
 
 
+def _await_chain_progs():
+    """c fails after b has parked awaiting it and main awaits b; b must share a worker with c for the same-worker path,
+    so b is spawned k processes after c for several k (round-robin placement over one worker per CPU)."""
+    out = []
+    for k in sorted({0, 1, max(0, (os.cpu_count() or 2) - 2), max(0, (os.cpu_count() or 1) - 1)}):
+        fill = "".join(" g%d = @#{ 1 }," % i for i in range(k))
+        out.append(("a failure reaches the awaiter of an awaiter when the chain was parked before it happened (%d processes between the two)" % k,
+                    "#{ c = @#{ !#'int =d => [10, d] __integer_divide__ }," + fill + " b = @#{ !c }, helper = @#{ ! [300] =[], 0 c }, !b }",
+                    None, "Division by zero"))
+    return out
+
+
 def check_fail_progs(quiv):
     try:
         with open(_IO_FILE, "w") as fh:
@@ -235,7 +247,7 @@ def check_fail_progs(quiv):
     except OSError:
         pass
     fails = []
-    progs = FAIL_PROGS + _effect_failure_progs()
+    progs = FAIL_PROGS + _effect_failure_progs() + _await_chain_progs()
     for name, src, expect, experr in progs:
         r = run_prog(quiv, src, timeout=30)
         why = None
@@ -250,8 +262,26 @@ def check_fail_progs(quiv):
     return {"runs": len(progs), "failures": fails}
 
 
+# equality through the REPL: shapes registered by different lines (name, lines, expected last line)
+EQ_REPL_PROGS = [
+    ("a value built through a generic function equals the literal of the same shape - also on a later line",
+     ["mk = #<'t>['t, 't] { =[x, y], Cons[x, Cons[y, Nil]] }, a = Cons[1, Cons[2, Nil]], b = [1, 2] mk, b =&a", "b =&a"], "Ok"),
+    ("... and the other way round, after an unrelated line",
+     ["mk = #<'t>['t, 't] { =[x, y], Cons[x, Cons[y, Nil]] }, a = Cons[1, Cons[2, Nil]], b = [1, 2] mk, b =&a", "7", "a =&b"], "Ok"),
+]
+
+
 def check_eq_progs(quiv):
     fails = []
+    for name, lines, expect in EQ_REPL_PROGS:
+        r = run_repl(quiv, lines)
+        why = None
+        if r.get("timeout"):
+            why = "timed out (worker panic or hang)"
+        elif r.get("value") != expect:
+            why = "the last evaluation printed %r, expected %r" % (r.get("value"), expect)
+        if why:
+            fails.append({"program": name, "source": " ;; ".join(lines), "why": why})
     for name, src, expect in EQ_PROGS:
         r = run_prog(quiv, src, timeout=20)
         why = None
@@ -263,7 +293,7 @@ def check_eq_progs(quiv):
             why = "evaluated to %r, expected %r" % (r.get("value"), expect)
         if why:
             fails.append({"program": name, "source": src, "why": why})
-    return {"runs": len(EQ_PROGS), "failures": fails}
+    return {"runs": len(EQ_PROGS) + len(EQ_REPL_PROGS), "failures": fails}
 
 
 def check_tail_shapes(quiv, n=40, factor=50):
